@@ -16,6 +16,9 @@
 //!   progc det <abs-out.ndjson> <proc-tag> <runs> <all|all+|p1,..> [withbuild]
 //!        every program compiled <runs> times in this process: hashes of the per-location
 //!        meta-graph JSON and of the emitted Rust text -> rows for Determinism.tla
+//!   progc run <abs-out.ndjson> <all|all+|p1,..>
+//!        instantiate the emitted function of every single-location program with channel inputs and
+//!        run 4 ticks; one {"e":"run","prog","verdict":"ok"|"panic"|"absent","outs":..} event each
 //!   progc show <prog>      print the emitted code of one program (replay aid)
 use std::collections::{BTreeMap, HashMap, HashSet};
 
@@ -185,11 +188,21 @@ fn panic_msg(e: Box<dyn std::any::Any + Send>) -> String {
 /// (generator verdict, message, run)
 type Outcome = (String, String, ProdRun);
 
+macro_rules! runnable {
+    ($f:ident, run) => {
+        stringify!($f)
+    };
+    ($f:ident, norun) => {
+        ""
+    };
+}
+
 macro_rules! hv_programs {
-    ($set:ident; $(($m:ident, $f:ident, $exp:ident);)*) => {
+    ($set:ident; $(($m:ident, $f:ident, $exp:ident, $run:ident);)*) => {
         mod $set {
             use super::*;
             pub const ALL: &[(&str, &str)] = &[$((stringify!($f), stringify!($exp))),*];
+            pub const RUNNABLE: &[&str] = &[$(runnable!($f, $run)),*];
             /// Build the flow and run `generate_embedded` on a fresh thread.
             pub fn compile(name: &str, with_shadow: bool) -> Option<Outcome> {
                 match name {
@@ -252,6 +265,7 @@ include!("../../../hv_prog_flows/src/gen/list_thorough.in");
 #[cfg(not(feature = "thorough"))]
 mod t {
     pub const ALL: &[(&str, &str)] = &[];
+    pub const RUNNABLE: &[&str] = &[];
     pub fn compile(_name: &str, _s: bool) -> Option<super::Outcome> {
         None
     }
@@ -411,6 +425,41 @@ fn cmd_det(args: &[String]) {
     println!("{}", json!({"programs": progs.len(), "rows": n}));
 }
 
+/// Instantiate the emitted function of every single-location program and run it for a few ticks
+/// (the emitted functions are generic over their input streams: rustc type-checks them when the
+/// crate is built, this forces their monomorphisation and executes the generated glue).
+fn cmd_run(args: &[String]) {
+    let mut tr = Trace::create(&args[0]);
+    let progs = select(&args[1]);
+    let ticks = 4;
+    let (mut n, mut ok) = (0, 0);
+    for (name, _expect) in &progs {
+        if !(q::RUNNABLE.contains(&name.as_str()) || t::RUNNABLE.contains(&name.as_str())) {
+            continue;
+        }
+        let nm = name.clone();
+        let h = std::thread::Builder::new()
+            .stack_size(64 << 20)
+            .spawn(move || hv_prog_embedded::gen_progs::run_prog(&nm, ticks))
+            .expect("spawn");
+        n += 1;
+        match h.join() {
+            Ok(Some(outs)) => {
+                ok += 1;
+                let trunc: Vec<Vec<String>> = outs.iter().map(|t| t.iter().take(12).cloned().collect()).collect();
+                tr.ev(json!({"e":"run","prog":name,"verdict":"ok","msg":"","ticks":ticks,
+                             "emitted": outs.iter().map(|t| t.len()).collect::<Vec<_>>(), "outs": trunc}));
+            }
+            // generator rejected it / rustc excluded it: nothing to run (the prod event says why)
+            Ok(None) => tr.ev(json!({"e":"run","prog":name,"verdict":"absent","msg":"","ticks":0,"emitted":[],"outs":[]})),
+            Err(e) => tr.ev(json!({"e":"run","prog":name,"verdict":"panic","msg":panic_msg(e).chars().take(2000).collect::<String>(),
+                                   "ticks":ticks,"emitted":[],"outs":[]})),
+        }
+    }
+    tr.finish();
+    println!("{}", json!({"runnable": n, "ok": ok}));
+}
+
 fn cmd_show(args: &[String]) {
     let (verdict, msg, run) = compile(&args[0], true);
     println!("// verdict: {verdict} {msg}");
@@ -429,6 +478,7 @@ fn main() {
     match args.get(1).map(|s| s.as_str()) {
         Some("prod") => cmd_prod(&args[2..]),
         Some("det") => cmd_det(&args[2..]),
+        Some("run") => cmd_run(&args[2..]),
         Some("show") => cmd_show(&args[2..]),
         _ => {
             eprintln!("usage: progc prod|det|show ...");
